@@ -159,6 +159,90 @@ def part_a(ck, tlcenv):
     return len(events)
 
 
+# ---------------------------------------------------------------- part C
+def part_c(ck):
+    from pkgcore.exceptions import PkgcoreException
+    from pkgcore.operations import repo as repo_ops
+    from pkgcore.sync import base as sync_base
+
+    class OtherPkgcoreError(PkgcoreException):
+        pass
+
+    events = []
+    tid = 0
+    for loc, lazy, disabled, o, via in itertools.product(["repo", "config", "none"], [False, True], [False, True],
+                                                         ["ret_true", "ret_false", "raise_pk", "raise_other"], ["direct", "run"]):
+        log = []
+        inst = []
+
+        class FakeSyncer(sync_base.Syncer):
+            def __init__(self):  # no path / uri handling: only the operation template is under test
+                pass
+
+            def sync(self, **kw):
+                log.append("sync")
+                if o == "raise_pk":
+                    raise OtherPkgcoreError("scripted")
+                if o == "raise_other":
+                    raise ValueError("scripted")
+                return o == "ret_true"
+
+        sy = FakeSyncer()
+        sy.disabled = disabled
+
+        class Lazy:
+            def instantiate(self):
+                inst.append(1)
+                return sy
+
+        ref = Lazy() if lazy else sy
+
+        class Conf:
+            pass
+
+        class Repo:
+            frozen = False
+
+            def _pre_sync(self):
+                log.append("pre")
+
+            def _post_sync(self):
+                log.append("post")
+
+        repo = Repo()
+        if loc == "repo":
+            repo._syncer = ref
+        elif loc == "config":
+            repo.config = Conf()
+            repo.config._syncer = ref
+        ops = repo_ops.sync_operations(repo)
+        ev = dict(t="sync", tid=tid, i=0, loc=loc, lazy=lazy, disabled=disabled, o=o, via=via, offered=bool(ops.supports("sync")),
+                  kind="ret", cls="-", wrapped=False, val="-", log=[], instantiated=False)
+        sentinel = object()
+        try:
+            r = ops.sync() if via == "direct" else ops.run_if_supported("sync", or_return=sentinel)
+            if r is sentinel:
+                ev["kind"] = "or_return"
+            else:
+                ev["val"] = "ret_true" if r is True else "ret_false" if r is False else "other"
+        except Exception as e:  # noqa: BLE001
+            ev["kind"] = "raise"
+            ev["cls"] = type(e).__name__
+            ev["wrapped"] = getattr(e, "_exc", None) is not None
+        ev["log"] = list(log)
+        ev["instantiated"] = bool(inst)
+        events.append(ev)
+        ck.count()
+        if ev["offered"]:
+            ck.nontriv(("sync", tid))
+        tid += 1
+    for v in ck.trace("RepoOps_Trace", events, label="Trace:sync-table", timeout=600, cfg_text="SPECIFICATION TraceSpec\n"):
+        ev = events[v["tid"]]
+        ck.violation(v["clause"], dict(part="sync", case={k: ev[k] for k in ("loc", "lazy", "disabled", "o", "via")},
+                                       observed={k: ev[k] for k in ("offered", "kind", "cls", "wrapped", "val", "log")}))
+
+
+
 # ---------------------------------------------------------------- part B
 class World:
     """One real operation object with recorders around it."""
@@ -293,6 +377,7 @@ def run(ck):
     ck.extra["guards_refuted"] = [g1.violated, g2.violated]
     # 2. part A (finite, complete)
     part_a(ck, None)
+    part_c(ck)
     ck.exhaustive = False  # part A is complete, part B is sampled
     # 3. part B spec -> code
     Dp = ck.pick(5, 8)
